@@ -12,6 +12,8 @@ inductive Clause where
   | historyDependent      -- the target's outcome differs from the fresh interpreter's
   | encodeTwiceDiffers    -- two consecutive `rtf_encode()` calls on one document differ
   | frameModified         -- a caller's DataFrame is not what it was before the history
+  | interpreterDependent  -- two fresh interpreters (they differ in their string-hash seed and in nothing else)
+                          -- give different outcomes for the same constructor call + encode
   deriving DecidableEq, Repr
 
 structure Obs (α γ : Type) where
@@ -24,6 +26,12 @@ def violations {α γ} [DecidableEq α] [DecidableEq γ] (o : Obs α γ) : List 
   (if o.target = o.fresh then [] else [.historyDependent]) ++
   (if o.twice.all (fun p => decide (p.1 = p.2)) then [] else [.encodeTwiceDiffers]) ++
   (if o.frames.all (fun p => decide (p.1 = p.2)) then [] else [.frameModified])
+
+/-- "What a fresh interpreter produces" is one thing only if every fresh interpreter produces it: `ref` = the
+outcome in the reference interpreter, `others` = the outcomes of the same constructor call + encode in fresh
+interpreters started with other hash seeds. -/
+def seedViolations {α} [DecidableEq α] (ref : α) (others : List α) : List Clause :=
+  if others.all (fun o => decide (o = ref)) then [] else [.interpreterDependent]
 
 /-- what the implementation lets us observe of one `rtf_encode()` call -/
 inductive ObsOut where
@@ -44,5 +52,9 @@ def modelObs (T : Table) (w₀ : World) (ops : List Op) (c : Ctor) : Obs Outcome
     fresh := (encodeCtor T w₀ c).2
     twice := twicePairs r.2
     frames := (w₀.frames.map (·.2)).zip (t.1.frames.map (·.2)) }
+
+/-- the outcomes of one constructor call + encode in fresh interpreters with the hash seeds `seeds` -/
+def modelFreshOutcomes (T : Table) (w₀ : World) (seeds : List Nat) (c : Ctor) : List Outcome :=
+  seeds.map (fun s => (encodeCtor T { w₀ with seed := s } c).2)
 
 end Model.World
